@@ -242,6 +242,119 @@ Theorem C07_entropy_function_of_rdm_partial :
 Proof. exact entropy_of_rdm_partial. Qed.
 Print Assumptions C07_entropy_function_of_rdm_partial.
 
+(* ================================================================= second wave *)
+(* rdm2_dense in explicit partial-trace form (the delta weights collapsed), any pair i < j, any chain length:
+   rho[(x1,x2),(y1,y2)] = sum over the configurations of ALL OTHER sites of Psi[..x1..x2..] * conj(Psi[..y1..y2..]) *)
+Theorem C07_rdm2_ptrace : forall (R : CRing) left p1 d1 (t1 : T3 R) mid p2 d2 (t2 : T3 R) right x1 x2 y1 y2,
+  lastdim d2 (kchain R right) = 1 ->
+  x1 < p1 -> y1 < p1 -> x2 < p2 -> y2 < p2 ->
+  rdm2 left (lastdim 1 (kchain R left)) p1 d1 t1 mid (lastdim d1 (kchain R mid)) p2 d2 t2 right x1 x2 y1 y2 =
+  sumcfg (kdims R left) (fun sl => sumcfg (kdims R mid) (fun sm => sumcfg (kdims R right) (fun sr =>
+    rmul R (amp (kchain R (left ++ (p1, d1, t1) :: mid ++ (p2, d2, t2) :: right)) (sl ++ x1 :: sm ++ x2 :: sr))
+           (rcj R (amp (kchain R (left ++ (p1, d1, t1) :: mid ++ (p2, d2, t2) :: right)) (sl ++ y1 :: sm ++ y2 :: sr)))))).
+Proof. exact rdm2_ptrace. Qed.
+Print Assumptions C07_rdm2_ptrace.
+
+(* rank-4 (MpDm / purified) sites: the ndim == 4 branches.  rho[x,y] = trace over the other sites AND all ancillas *)
+Theorem C07_rdm1_dm_ptrace : forall (R : CRing) left p q d (t : T4 R) right x y,
+  lastdim d (kchain4 R right) = 1 -> x < p -> y < p ->
+  rdm1_4 left (lastdim 1 (kchain4 R left)) p q d t right x y =
+  sumcfg (kdims4 R left) (fun sl => sumcfg (kdims4 R right) (fun sr =>
+    sumcfg (qdims4 R (left ++ (p, q, d, t) :: right)) (fun anc =>
+      rmul R (chain4 (kchain4 R (left ++ (p, q, d, t) :: right)) (sl ++ x :: sr) anc 0 0)
+             (rcj R (chain4 (kchain4 R (left ++ (p, q, d, t) :: right)) (sl ++ y :: sr) anc 0 0))))).
+Proof. exact rdm1_4_ptrace. Qed.
+Print Assumptions C07_rdm1_dm_ptrace.
+
+Theorem C07_rdm2_dm_ptrace : forall (R : CRing) left p1 q1 d1 (t1 : T4 R) mid p2 q2 d2 (t2 : T4 R) right x1 x2 y1 y2,
+  lastdim d2 (kchain4 R right) = 1 ->
+  x1 < p1 -> y1 < p1 -> x2 < p2 -> y2 < p2 ->
+  rdm2_4 left (lastdim 1 (kchain4 R left)) p1 q1 d1 t1 mid (lastdim d1 (kchain4 R mid)) p2 q2 d2 t2 right x1 x2 y1 y2 =
+  sumcfg (kdims4 R left) (fun sl => sumcfg (kdims4 R mid) (fun sm => sumcfg (kdims4 R right) (fun sr =>
+    sumcfg (qdims4 R (left ++ (p1, q1, d1, t1) :: mid ++ (p2, q2, d2, t2) :: right)) (fun anc =>
+      rmul R (chain4 (kchain4 R (left ++ (p1, q1, d1, t1) :: mid ++ (p2, q2, d2, t2) :: right)) (sl ++ x1 :: sm ++ x2 :: sr) anc 0 0)
+             (rcj R (chain4 (kchain4 R (left ++ (p1, q1, d1, t1) :: mid ++ (p2, q2, d2, t2) :: right)) (sl ++ y1 :: sm ++ y2 :: sr) anc 0 0)))))).
+Proof. exact rdm2_4_ptrace. Qed.
+Print Assumptions C07_rdm2_dm_ptrace.
+
+Theorem C07_rdm1_dm_tabulated : forall (R : CRing) left p q d (t : T4 R) right x y,
+  lastdim d (kchain4 R right) = 1 ->
+  rdm1t_4 left (ldim_of4 left 1) p q d t right x y = rdm1_4 left (lastdim 1 (kchain4 R left)) p q d t right x y.
+Proof. exact rdm1t_4_eq. Qed.
+Print Assumptions C07_rdm1_dm_tabulated.
+
+Theorem C07_rdm2_dm_tabulated : forall (R : CRing) left p1 q1 d1 (t1 : T4 R) mid p2 q2 d2 (t2 : T4 R) right x1 x2 y1 y2,
+  lastdim d2 (kchain4 R right) = 1 ->
+  rdm2t_4 left (ldim_of4 left 1) p1 q1 d1 t1 mid (ldim_of4 mid d1) p2 q2 d2 t2 right x1 x2 y1 y2 =
+  rdm2_4 left (lastdim 1 (kchain4 R left)) p1 q1 d1 t1 mid (lastdim d1 (kchain4 R mid)) p2 q2 d2 t2 right x1 x2 y1 y2.
+Proof. exact rdm2t_4_eq. Qed.
+Print Assumptions C07_rdm2_dm_tabulated.
+
+(* fast = slow composed for the MpDm expectation path (contract_one_site with ms.ndim == 4) *)
+Theorem C07_fast_eq_slow_dm : forall (R : CRing) ps qs (bra ket : list (nat * T4 R)) nmps (ms : list (hop (OpSite R))),
+  wf_state4 R bra ket nmps ->
+  (forall m, In m ms -> wf_op R nmps (map snd m)) ->
+  (forall h o o', In (h, o) (concat ms) -> In (h, o') (concat ms) -> o = o') ->
+  expectations_fast4 R ps qs bra ket nmps ms = Some (expectations_slow4 R ps qs bra ket ms).
+Proof. exact expectations_fast4_eq_slow. Qed.
+Print Assumptions C07_fast_eq_slow_dm.
+
+Theorem C07_slow_dense_dm : forall (R : CRing) ps qs (bra ket : list (nat * T4 R)) nmps (ms : list (hop (OpSite R))),
+  wf_state4 R bra ket nmps -> (forall m, In m ms -> wf_op R nmps (map snd m)) ->
+  expectations_slow4 R ps qs bra ket ms = map (fun m => dense4 R (sites_from4 R ps qs bra ket 0 (map snd m))) ms.
+Proof. exact expectations_slow4_dense. Qed.
+Print Assumptions C07_slow_dense_dm.
+
+(* occupations: e_occupations / ph_occupations are expectations (default bra conj(Psi)) of number-operator MPOs.
+   ASSUMED about such an MPO `os` (checked by exact correspondence on the MPOs Renormalizer builds, see harness):
+   its dense matrix is diagonal with entries n(s).  Then the value is sum_s n(s) |Psi(s)|^2. *)
+Theorem C07_occupation_dense : forall (R : CRing) (ks : list (ksite R)) (os : list (nat * T4 R)) (n : list nat -> R),
+  length os = length ks -> ks <> [] ->
+  lastdim 1 (kchain R ks) = 1 -> lastdim 1 os = 1 ->
+  (forall s' s, Forall2 lt s' (kdims R ks) -> Forall2 lt s (kdims R ks) -> opamp os s' s = rmul R (deltas R s' s) (n s)) ->
+  expectation3 (osand R ks os) =
+  sumcfg (kdims R ks) (fun s => rmul R (n s) (rmul R (rcj R (amp (kchain R ks) s)) (amp (kchain R ks) s))).
+Proof. exact occupation_dense. Qed.
+Print Assumptions C07_occupation_dense.
+
+(* bond entropy input -- PARTIAL.  With Psi(sl,sr) = sum_a U(sl,a) sigma_a V(a,sr), U^+U = 1, V V^+ = 1 (the form the
+   lossless canonical sweep produces; sigma = the recorded singular values), the dense Gram matrix of the left block
+   G(sl,sl') = sum_sr Psi(sl,sr) conj Psi(sl',sr) is  U diag(sigma conj sigma) U^+  and every sigma_a conj sigma_a is an
+   eigenvalue of G with eigenvector U(.,a).  G depends on the dense state only.  Not formalised: uniqueness of the
+   spectrum (so that sigma is *determined* by G), and the entropy formula itself. *)
+Theorem C07_bond_gram_decomp_partial : forall (R : CRing) (Dr : list nat) (D : nat) (U : list nat -> nat -> R)
+    (V : nat -> list nat -> R) (sg : nat -> R),
+  (forall a a', a < D -> a' < D -> sumcfg Dr (fun sr => rmul R (V a sr) (rcj R (V a' sr))) = dl R a a') ->
+  forall sl sl', gram R Dr (psi_cut R D U V sg) sl sl' =
+    sumn D (fun a => rmul R (rmul R (U sl a) (rmul R (sg a) (rcj R (sg a)))) (rcj R (U sl' a))).
+Proof. exact gram_decomp. Qed.
+Print Assumptions C07_bond_gram_decomp_partial.
+
+Theorem C07_bond_gram_eigen_partial : forall (R : CRing) (Dl Dr : list nat) (D : nat) (U : list nat -> nat -> R)
+    (V : nat -> list nat -> R) (sg : nat -> R),
+  (forall a a', a < D -> a' < D -> sumcfg Dl (fun sl => rmul R (rcj R (U sl a)) (U sl a')) = dl R a a') ->
+  (forall a a', a < D -> a' < D -> sumcfg Dr (fun sr => rmul R (V a sr) (rcj R (V a' sr))) = dl R a a') ->
+  forall sl a, a < D ->
+  sumcfg Dl (fun sl' => rmul R (gram R Dr (psi_cut R D U V sg) sl sl') (U sl' a)) =
+  rmul R (rmul R (sg a) (rcj R (sg a))) (U sl a).
+Proof. exact gram_eigen. Qed.
+Print Assumptions C07_bond_gram_eigen_partial.
+
+(* the same for a chain cut by chain3_app: U = amplitudes of the left block, sigma * V = amplitudes of the right block *)
+Theorem C07_bond_gram_chain_partial : forall (R : CRing) (left right : list (nat * T3 R)) (Dl Dr : list nat)
+    (V : nat -> list nat -> R) (sg : nat -> R),
+  length Dl = length left ->
+  (forall a sr, a < lastdim 1 left -> chain3 right sr a 0 = rmul R (sg a) (V a sr)) ->
+  (forall a a', a < lastdim 1 left -> a' < lastdim 1 left ->
+      sumcfg Dl (fun sl => rmul R (rcj R (chain3 left sl 0 a)) (chain3 left sl 0 a')) = dl R a a') ->
+  (forall a a', a < lastdim 1 left -> a' < lastdim 1 left ->
+      sumcfg Dr (fun sr => rmul R (V a sr) (rcj R (V a' sr))) = dl R a a') ->
+  forall sl a, Forall2 lt sl Dl -> a < lastdim 1 left ->
+  sumcfg Dl (fun sl' => rmul R (gram R Dr (fun x y => amp (left ++ right) (x ++ y)) sl sl') (chain3 left sl' 0 a)) =
+  rmul R (rmul R (sg a) (rcj R (sg a))) (chain3 left sl 0 a).
+Proof. exact bond_gram_chain. Qed.
+Print Assumptions C07_bond_gram_chain_partial.
+
 (* ---------------------------------------------------------------- non-vacuity *)
 Local Open Scope Z_scope.
 (* a two-site integer state, bond dimension two, and four operators Z1, Z2, Z1 Z2, Z2 (one repeated) *)
@@ -279,3 +392,40 @@ Example C07_rdm1_transpose_differs :
   let t : T3 GiRing := @of3 GiRing [[[(1, 0)]; [(0, 1)]]] in
   rdm1 (R := GiRing) [] 1 2 1 t [] 0 1 = (0, -1) /\ rdm1 (R := GiRing) [] 1 2 1 t [] 1 0 = (0, 1).
 Proof. vm_compute. split; reflexivity. Qed.
+
+(* ---- non-vacuity of the second-wave hypotheses *)
+Definition ex_ket4 : list (nat * T4 ZRing) :=
+  [(2%nat, @of4 ZRing [[[[1; 2]; [0; 1]]; [[1; 0]; [2; 1]]]]); (1%nat, @of4 ZRing [[[[1]; [0]]; [[2]; [1]]]; [[[0]; [1]]; [[1]; [1]]]])].
+Example C07_ex_dm :
+  wf_state4 ZRing ex_ket4 ex_ket4 2 /\
+  expectations_fast4 ZRing ex_ps ex_ps ex_ket4 ex_ket4 2 ex_ms = Some (expectations_slow4 ZRing ex_ps ex_ps ex_ket4 ex_ket4 ex_ms) /\
+  expectations_slow4 ZRing ex_ps ex_ps ex_ket4 ex_ket4 ex_ms = [-12; -54; 12; -54].
+Proof. split; [split; [lia|split; reflexivity]|]. vm_compute. split; reflexivity. Qed.
+
+(* a number operator diag(0,1) on a one-site state (3,2): the diagonality assumption holds, occupation = 2*2 = 4 *)
+Definition ex_k1 : list (ksite ZRing) := [(2%nat, 1%nat, @of3 ZRing [[[3]; [2]]])].
+Definition ex_N : list (nat * T4 ZRing) := [(1%nat, @of4 ZRing [[[[0]; [0]]; [[0]; [1]]]])].
+Example C07_ex_occupation :
+  (forall s' s, Forall2 lt s' (kdims ZRing ex_k1) -> Forall2 lt s (kdims ZRing ex_k1) ->
+     opamp ex_N s' s = rmul ZRing (deltas ZRing s' s) (Z.of_nat (nth 0 s 0%nat))) /\
+  expectation3 (osand ZRing ex_k1 ex_N) = 4.
+Proof.
+  split; [|vm_compute; reflexivity].
+  intros s' s H1 H2. cbn in H1, H2.
+  inversion H1 as [|a ? s1 ? Ha Hs1]; subst. inversion Hs1; subst.
+  inversion H2 as [|b ? s2 ? Hb Hs2]; subst. inversion Hs2; subst.
+  destruct a as [|[|a]]; [| |lia]; (destruct b as [|[|b]]; [| |lia]); vm_compute; reflexivity.
+Qed.
+
+(* isometries for the bond statement: U(sl,a) = delta(sl_0,a), V(a,sr) = delta(a,sr_0), sigma = (2,3) *)
+Example C07_ex_bond :
+  let U := fun (sl : list nat) (a : nat) => dl ZRing (nth 0 sl 0%nat) a in
+  let V := fun (a : nat) (sr : list nat) => dl ZRing a (nth 0 sr 0%nat) in
+  (forall a a', (a < 2)%nat -> (a' < 2)%nat -> sumcfg [2%nat] (fun sl => rmul ZRing (rcj ZRing (U sl a)) (U sl a')) = dl ZRing a a') /\
+  (forall a a', (a < 2)%nat -> (a' < 2)%nat -> sumcfg [2%nat] (fun sr => rmul ZRing (V a sr) (rcj ZRing (V a' sr))) = dl ZRing a a') /\
+  gram ZRing [2%nat] (psi_cut ZRing 2 U V (fun a => if Nat.eqb a 0 then 2 else 3)) [1%nat] [1%nat] = 9.
+Proof.
+  cbn zeta. repeat split.
+  - intros a a' Ha Ha'. destruct a as [|[|a]]; [| |lia]; (destruct a' as [|[|a']]; [| |lia]); vm_compute; reflexivity.
+  - intros a a' Ha Ha'. destruct a as [|[|a]]; [| |lia]; (destruct a' as [|[|a']]; [| |lia]); vm_compute; reflexivity.
+Qed.
